@@ -26,6 +26,12 @@ def get_args(tp):
 def _any_to_object(t):
     if t is typing.Any:
         return object
+    if isinstance(t, typing._AnnotatedAlias):
+        # Annotated[A, ...] is A, also inside type[...]
+        return _any_to_object(t.__origin__)
+    if UnionType and isinstance(t, UnionType):
+        # A | B is typing.Union[A, B], also inside type[...]
+        return typing.Union[tuple(_any_to_object(a) for a in t.__args__)]
     args = getattr(t, "__args__", None)
     if args and getattr(t, "__origin__", None) is not None:
         new_args = tuple(_any_to_object(a) for a in args)
